@@ -80,7 +80,7 @@ pub fn worker_main() -> i32 {
 
 fn spawn(job: &Job) -> std::process::Child {
     let exe = std::env::current_exe().expect("current_exe");
-    let mut child = Command::new(exe).arg("sched-worker").stdin(Stdio::piped()).stdout(Stdio::piped()).stderr(Stdio::inherit()).spawn().expect("spawn worker");
+    let mut child = Command::new(exe).arg("sched-worker").stdin(Stdio::piped()).stdout(Stdio::piped()).stderr(Stdio::piped()).env("RUST_BACKTRACE", "0").env("VH_PANIC_LINES", "1").spawn().expect("spawn worker");
     let mut stdin = child.stdin.take().unwrap();
     stdin.write_all(serde_json::to_string(job).unwrap().as_bytes()).unwrap();
     stdin.write_all(b"\n").unwrap();
@@ -91,7 +91,17 @@ fn spawn(job: &Job) -> std::process::Child {
 fn collect(child: std::process::Child) -> Result<JobOut, String> {
     let out = child.wait_with_output().map_err(|e| e.to_string())?;
     if !out.status.success() {
-        return Err(format!("worker exited with {}", out.status));
+        // a worker that dies (double panic -> abort, stack overflow) is a verdict about the subject
+        // when the panic originates in redb's sources, otherwise a machinery error
+        let err = String::from_utf8_lossy(&out.stderr);
+        let panics: Vec<&str> = err.lines().filter(|l| l.contains("panicked at")).collect();
+        let first = panics.first().copied().unwrap_or("");
+        let in_subject = !first.is_empty() && !first.contains("harness/src") && !first.contains("/verif/") && !first.contains("/mh/src");
+        let tail: String = err.lines().filter(|l| !l.starts_with("WARNING")).take(12).collect::<Vec<_>>().join(" | ");
+        if in_subject {
+            return Err(format!("SUBJECT-ABORT: worker process died ({}) after a panic inside redb: {}", out.status, tail.chars().take(600).collect::<String>()));
+        }
+        return Err(format!("worker exited with {}: {}", out.status, tail.chars().take(400).collect::<String>()));
     }
     let text = String::from_utf8_lossy(&out.stdout);
     let line = text.lines().last().unwrap_or("");
@@ -158,6 +168,13 @@ pub fn run_plans(rep: &mut Report, plans: Vec<Plan>) {
             per_plan[*pi] = ExploreStats::default();
             grew[*pi] = false;
             match &fouts[*pi] {
+                Err(e) if e.starts_with("SUBJECT-ABORT") => {
+                    rep.violation(
+                        format!("schedx:{}:process-abort:{}", p.scn, crate::report::panic_key(&e.chars().skip(60).take(120).collect::<String>())),
+                        format!("scenario {} (cache config {}), during the frontier/warm-up schedules: {e}", p.scn, p.cache),
+                        json!({"engine": "schedx", "scenario": p.scn, "cache": p.cache, "choices": [], "reduced": p.reduced}),
+                    );
+                }
                 Err(e) => rep.machinery_errors.push(format!("{} cache{}: frontier: {e}", p.scn, p.cache)),
                 Ok(fo) => {
                     let nchunks = (fo.roots.len() / 8).clamp(1, 64);
@@ -181,6 +198,14 @@ pub fn run_plans(rep: &mut Report, plans: Vec<Plan>) {
         let outs = run_jobs(jobs, par);
         for (o, pi) in outs.into_iter().zip(owner.iter()) {
             match o {
+                Err(e) if e.starts_with("SUBJECT-ABORT") => {
+                    let p = &plans[*pi];
+                    rep.violation(
+                        format!("schedx:{}:process-abort:{}", p.scn, crate::report::panic_key(&e.chars().skip(60).take(120).collect::<String>())),
+                        format!("scenario {} (cache config {}), in a bounded-search worker: {e}", p.scn, p.cache),
+                        json!({"engine": "schedx", "scenario": p.scn, "cache": p.cache, "choices": [], "reduced": p.reduced}),
+                    );
+                }
                 Err(e) => rep.machinery_errors.push(format!("{}: worker: {e}", plans[*pi].scn)),
                 Ok(o) => {
                     if let Ok(fo) = &fouts[*pi] {
